@@ -476,6 +476,14 @@ class ProgGen:
                 return self.call('insert', [['name', n], ['num', str(r.randint(0, 3))], self.expr(self.pick_scalar_type(), 1)])
             return self.call('remove', [['name', n], self.expr(self.pick_scalar_type(), 0)])
         if k == 'deffn':
+            return self.stmt_deffn(d)
+        self.kinds.add('exprstmt')
+        return self.expr('any', d)
+
+    def stmt_deffn(self, d=None):
+        r = self.r
+        d = self.max_depth if d is None else d
+        if True:
             v = r.choice(['f', 'g', 'h', 'fn', 'len', 'sum'][:4 + (2 if r.random() < 0.15 else 0)])
             n = r.choice([1, 1, 2, 3])
             x = r.random()
@@ -493,8 +501,6 @@ class ProgGen:
             self.fn_arity[v] = n
             self.kinds.add('deffn')
             return ['assign', v, lam]
-        self.kinds.add('exprstmt')
-        return self.expr('any', d)
 
     def program(self, n_stmts=None, depth=None):
         r = self.r
